@@ -75,12 +75,14 @@ struct Other {
 struct OtherTop { static constexpr auto name = "othertop"; static void compose(Wiring &w) { wire<Other>(w); } };
 
 GraphExecutorBuilder *g_eb[3];
-void run_one(int which) {
+void run_one(int which, bool copy_back = false) {
     // every run has its own arbitrary wall clock: start value and advance per reading are symbolic
     verif_clock_set_ns(verif_range("clock0", 1600000000000000000LL, 1800000000000000000LL));
     verif_clock_config(0, 5000000, 0);
     GraphExecutorValue ex = g_eb[which]->make_executor();
     ex.view().run();
+    // what eval_node / lower.cpp do at run end: the run's (isolated) global state is copied back to the state the user selected
+    if (copy_back) { if (auto *sel = GlobalContext::active_state()) sel->view().copy_from(ex.view().graph().global_state()); }
 }
 void run_thread(void *arg) {
     int which = (int)(std::intptr_t)arg;
@@ -116,7 +118,7 @@ template <int RUN> GraphBuilder seeded_builder() {
 extern "C" int harness_main() {
     for (int k = 0; k < NEMIT; k++) { g_delta[k] = verif_range("delta", 0, DMAX); g_val[k] = verif_range("val", -100, 100); }
     g_poison = verif_range("poison", 1000, 2000);
-    int history = THREADS ? 0 : verif_choice("history", 4);
+    int history = THREADS ? 0 : verif_choice("history", 5);
     DateTime start = MIN_ST + TimeDelta{verif_range("start", 0, 100)}, end = start + TimeDelta{NEMIT * DMAX + 2};
 
     // the SAME recipe is used for both runs: Top<0>/Top<1> differ only in the scalar telling the node where to log
@@ -148,6 +150,18 @@ extern "C" int harness_main() {
         verif_join(t1);
         verif_join(t2);
         verif_reach("two_executors_interleaved");
+    } else if (history == 4) {
+        // both builders are wired inside a user-selected GlobalContext (their seed is its state at wiring time); every run's
+        // final state is copied back into the selected state, as eval_node does.  The next run still starts from the seed.
+        GlobalContext ctx;
+        ctx.state().view().set("seed", Value{Int{41}});
+        GraphExecutorBuilder cb0, cb1;
+        cb0.graph_builder(build_graph<Top<0>>()).start_time(start).end_time(end);
+        cb1.graph_builder(build_graph<Top<1>>()).start_time(start).end_time(end);
+        g_eb[0] = &cb0; g_eb[1] = &cb1;
+        run_one(0, true);
+        run_one(1, true);
+        verif_reach("runs_inside_selected_global_context_with_copy_back");
     } else {
         run_one(0);
         switch (history) {
